@@ -748,8 +748,31 @@ class Processor:
         - `YAMLPathException` when the operation would destroy the entire
            document
         """
+        # Delete each document position only once, however many times it was
+        # matched (e.g. via several Aliases of one list); deleting an index
+        # twice would otherwise remove a neighboring element, too.
+        seen_refs: set = set()
+        unique_nodes: List[NodeCoords] = []
+        for gathered_nc in delete_nodes:
+            ref = gathered_nc.parentref
+            if (isinstance(gathered_nc.parent, list)
+                and isinstance(ref, int) and ref < 0
+            ):
+                ref += len(gathered_nc.parent)
+            if (isinstance(gathered_nc.parent, (dict, list, set, CommentedSet))
+                and not isinstance(gathered_nc.node, NodeCoords)
+                and not (isinstance(gathered_nc.node, list)
+                    and len(gathered_nc.node) > 0
+                    and isinstance(gathered_nc.node[0], NodeCoords))
+            ):
+                ref_id = (id(gathered_nc.parent), repr(ref))
+                if ref_id in seen_refs:
+                    continue
+                seen_refs.add(ref_id)
+            unique_nodes.append(gathered_nc)
+
         # pylint: disable=locally-disabled,too-many-nested-blocks
-        for delete_nc in reversed(delete_nodes):
+        for delete_nc in reversed(unique_nodes):
             node = delete_nc.node
             parent = delete_nc.parent
             parentref = delete_nc.parentref
